@@ -1231,18 +1231,20 @@ func (cs *ClientSession) Ping(ctx context.Context, params *PingParams) error {
 // Results may be served from a client-side TTL cache populated by previous
 // calls; see SEP-2549.
 func (cs *ClientSession) ListPrompts(ctx context.Context, params *ListPromptsParams) (*ListPromptsResult, error) {
+	var cacheGen uint64 // cache generation when the request is sent (SEP-2549 cache)
 	if cs.usesNewProtocol() {
 		if result, ok := cachedListResult(&cs.promptsCache, params); ok {
 			return result, nil
 		}
 		params = injectRequestMeta(cs, params)
+		cacheGen = cs.promptsCache.generation()
 	}
 	result, err := handleSend[*ListPromptsResult](ctx, methodListPrompts, newClientRequest(cs, orZero[Params](params)))
 	if err != nil {
 		return nil, err
 	}
 	if cs.usesNewProtocol() {
-		cs.promptsCache.put(params.Cursor, result)
+		cs.promptsCache.putIfCurrent(params.Cursor, result, cacheGen)
 	}
 	return result, nil
 }
@@ -1257,11 +1259,13 @@ func (cs *ClientSession) GetPrompt(ctx context.Context, params *GetPromptParams)
 
 // ListTools lists tools that are currently available on the server.
 func (cs *ClientSession) ListTools(ctx context.Context, params *ListToolsParams) (*ListToolsResult, error) {
+	var cacheGen uint64 // cache generation when the request is sent (SEP-2549 cache)
 	if cs.usesNewProtocol() {
 		if result, ok := cachedListResult(&cs.toolsCache, params); ok {
 			return result, nil
 		}
 		params = injectRequestMeta(cs, params)
+		cacheGen = cs.toolsCache.generation()
 	}
 	result, err := handleSend[*ListToolsResult](ctx, methodListTools, newClientRequest(cs, orZero[Params](params)))
 	if err != nil {
@@ -1269,7 +1273,7 @@ func (cs *ClientSession) ListTools(ctx context.Context, params *ListToolsParams)
 	}
 	result.Tools = filterValidTools(cs.client.opts.Logger, result.Tools)
 	if cs.usesNewProtocol() {
-		cs.toolsCache.put(params.Cursor, result)
+		cs.toolsCache.putIfCurrent(params.Cursor, result, cacheGen)
 	}
 	return result, nil
 }
@@ -1309,42 +1313,47 @@ func (cs *ClientSession) SetLoggingLevel(ctx context.Context, params *SetLogging
 
 // ListResources lists the resources that are currently available on the server.
 func (cs *ClientSession) ListResources(ctx context.Context, params *ListResourcesParams) (*ListResourcesResult, error) {
+	var cacheGen uint64 // cache generation when the request is sent (SEP-2549 cache)
 	if cs.usesNewProtocol() {
 		if result, ok := cachedListResult(&cs.resourcesCache, params); ok {
 			return result, nil
 		}
 		params = injectRequestMeta(cs, params)
+		cacheGen = cs.resourcesCache.generation()
 	}
 	result, err := handleSend[*ListResourcesResult](ctx, methodListResources, newClientRequest(cs, orZero[Params](params)))
 	if err != nil {
 		return nil, err
 	}
 	if cs.usesNewProtocol() {
-		cs.resourcesCache.put(params.Cursor, result)
+		cs.resourcesCache.putIfCurrent(params.Cursor, result, cacheGen)
 	}
 	return result, nil
 }
 
 // ListResourceTemplates lists the resource templates that are currently available on the server.
 func (cs *ClientSession) ListResourceTemplates(ctx context.Context, params *ListResourceTemplatesParams) (*ListResourceTemplatesResult, error) {
+	var cacheGen uint64 // cache generation when the request is sent (SEP-2549 cache)
 	if cs.usesNewProtocol() {
 		if result, ok := cachedListResult(&cs.resourceTemplatesCache, params); ok {
 			return result, nil
 		}
 		params = injectRequestMeta(cs, params)
+		cacheGen = cs.resourceTemplatesCache.generation()
 	}
 	result, err := handleSend[*ListResourceTemplatesResult](ctx, methodListResourceTemplates, newClientRequest(cs, orZero[Params](params)))
 	if err != nil {
 		return nil, err
 	}
 	if cs.usesNewProtocol() {
-		cs.resourceTemplatesCache.put(params.Cursor, result)
+		cs.resourceTemplatesCache.putIfCurrent(params.Cursor, result, cacheGen)
 	}
 	return result, nil
 }
 
 // ReadResource asks the server to read a resource and return its contents.
 func (cs *ClientSession) ReadResource(ctx context.Context, params *ReadResourceParams) (*ReadResourceResult, error) {
+	var cacheGen uint64 // cache generation when the request is sent (SEP-2549 cache)
 	if cs.usesNewProtocol() {
 		var uri string
 		if params != nil {
@@ -1354,13 +1363,14 @@ func (cs *ClientSession) ReadResource(ctx context.Context, params *ReadResourceP
 			return result, nil
 		}
 		params = injectRequestMeta(cs, params)
+		cacheGen = cs.readResourceCache.generation()
 	}
 	result, err := handleSend[*ReadResourceResult](ctx, methodReadResource, newClientRequest(cs, orZero[Params](params)))
 	if err != nil {
 		return nil, err
 	}
 	if cs.usesNewProtocol() {
-		cs.readResourceCache.put(params.URI, result)
+		cs.readResourceCache.putIfCurrent(params.URI, result, cacheGen)
 	}
 	return result, nil
 }
